@@ -1,0 +1,62 @@
+//go:build verif
+// +build verif
+
+package mod_compress
+
+import (
+	"io"
+
+	"github.com/bfenetworks/bfe/bfe_basic"
+	"github.com/bfenetworks/bfe/bfe_http"
+)
+
+// VerifRule describes one compress rule for the out-of-tree verification harness (build tag verif).
+type VerifRule struct {
+	Cond      string
+	Cmd       string
+	Quality   int
+	FlushSize int
+}
+
+// VerifNewModule builds a ModuleCompress whose rule table holds `rules` for `product`; every rule
+// goes through the real compressRuleCheck and ruleConvert.
+func VerifNewModule(product string, rules []VerifRule) (*ModuleCompress, error) {
+	m := NewModuleCompress()
+	list := new(compressRuleList)
+	*list = make([]compressRule, 0)
+	for i := range rules {
+		r := rules[i]
+		rf := compressRuleFile{Cond: &r.Cond, Action: &ActionFile{Cmd: &r.Cmd, Quality: &r.Quality, FlushSize: &r.FlushSize}}
+		if err := compressRuleCheck(rf); err != nil {
+			return nil, err
+		}
+		cr, err := ruleConvert(rf)
+		if err != nil {
+			return nil, err
+		}
+		*list = append(*list, cr)
+	}
+	conf := productRuleConf{Version: "verif", Config: ProductRules{}}
+	if product != "" {
+		conf.Config[product] = list
+	}
+	m.ruleTable.Update(conf)
+	return m, nil
+}
+
+// VerifHandle calls the real compressHandler.
+func (m *ModuleCompress) VerifHandle(req *bfe_basic.Request, res *bfe_http.Response) int {
+	return m.compressHandler(req, res)
+}
+
+// VerifFilterState reports which filter a body is, how many compressed bytes it holds that were not
+// yet read, and whether it has closed its compressor.
+func VerifFilterState(body io.ReadCloser) (kind string, buffered int, closed bool) {
+	switch f := body.(type) {
+	case *GzipFilter:
+		return "gzip", f.buffer.Len(), f.closed
+	case *BrotliFilter:
+		return "br", f.buffer.Len(), f.closed
+	}
+	return "none", 0, false
+}
